@@ -977,6 +977,24 @@ func (c *CEnv) callFn(e *Expr) cv {
 		return cv{V: app(SInt, name+"_", args...)}
 	case "some":
 		return cv{V: app("OptS", "some", c.term(e.Args[0]))}
+	case "arrof":
+		// arrof(v): the element array of a slice-sorted term
+		v := c.term(e.Args[0])
+		if !strings.HasPrefix(v.So, "Slc_") {
+			c.fail("arrof needs a slice term, got sort %s", v.So)
+		}
+		return cv{V: T{S: fmt.Sprintf("(arr_%s %s)", v.So, v.S), So: "(Array Int " + c.x.e.elemSortOfSlice(v.So) + ")"}}
+	case "mkslice":
+		// mkslice(a, n): the slice with element array a and length n (frame axioms of recursive spec functions over
+		// slices are stated over the terms an element write or an append produces)
+		a := c.term(e.Args[0])
+		n := c.term(e.Args[1])
+		es := strings.TrimSuffix(strings.TrimPrefix(a.So, "(Array Int "), ")")
+		so := "Slc_" + es
+		if es == "Int" || es == "String" || es == "Bool" {
+			so = "Slc_" + es
+		}
+		return cv{V: T{S: fmt.Sprintf("(mk_%s %s %s)", so, a.S, n.S), So: so}}
 	case "store":
 		// store(M, k..., v): functional update of an array ghost
 		m := c.term(e.Args[0])
